@@ -12,7 +12,11 @@ With A-E on every path the invariant (idx <= N, buf[..idx] = current segment) is
 one result computed by from_bytes_cobs on exactly that segment - for every chunking, because the argument is per call.
 """
 import lin
+import glue
 import summ
+import summ2
+import handspec
+import re
 import sym
 import tbl
 import acc as accmod
@@ -33,123 +37,66 @@ MANIFEST = {
 def run(run_, ctx):
     run_groups(run_, ctx, [("S", "acc", None, "accumulator"),
                            ("S", "de_entry", lambda k: k in ("de::from_bytes_cobs", "de::from_bytes"), "segment decoder used by the accumulator")])
-    run_.floor("S", 7)
+    run_.floor("S", 6)
     F = ctx.facts("A")
-    A = accmod.Acc(F)
-    fr = A.feed_ref
-    site = fr.where()
-    # A
-    err = accmod.check_position_closure(F, fr)
-    run_.check(err is None, "A", "zero predicate", err or "frame boundary = first byte equal to 0", site)
-    n_paths = 0
-    for i, p in enumerate(A.paths):
-        if p.status != "return":
-            run_.bad("PATH", "feed_ref path %d" % i, "path ends in %s" % p.status, site)
-            continue
-        n_paths += 1
-        v = A.variant(p)
-        zf = A.zero_found(p)
-        tag = "%s/%s" % (v, {True: "zero", False: "nozero", None: "empty"}[zf])
-        probs = []
-        ext = A.calls(p, "::extend_unchecked")
-        sp = A.calls(p, "<impl [T]>::split_at")
-        dec = A.calls(p, "de::from_bytes_cobs")
-        # A: split
-        if zf:
-            pos = A.calls(p, "Iterator::position")[0]
-            if len(sp) != 1 or norm(sp[0]["args"][0]) != A.input or \
-                    norm(sp[0]["args"][1]) != norm(("bin", "Add", ("someval", pos["result"]), C(1, "usize"), "usize")):
-                probs.append("A: input is not split right after the first zero byte (split_at(n + 1))")
-            take = norm(("getf", sp[0]["result"], "0")) if sp else None
-            release = norm(("getf", sp[0]["result"], "1")) if sp else None
-        # B: guarded append
-        for e in ext:
-            x = norm(e["args"][1])
-            goal = lin.ge(A.N, ("bin", "Add", A.idx0, ("len", x), "usize"))
-            if not A.prove(p, goal):
-                probs.append("B: extend_unchecked(%s) is not dominated by idx + len <= N" % sym.show(x))
-            if zf and x != take:
-                probs.append("B: appends %s, expected the bytes up to and including the zero" % sym.show(x))
-            if zf is False and x != A.input:
-                probs.append("B: appends %s, expected the whole chunk" % sym.show(x))
-        # C: decode exactly the accumulated bytes
-        if dec:
-            if len(ext) != 1:
-                probs.append("C: decodes without having appended the segment tail exactly once")
-            else:
-                a0 = dec[0]["args"][0]
-                okc = False
-                want_hi = norm(("getf", ("havoc", ext[0]["id"], ("P", A.self_)), "idx"))
-                if a0[0] == "ref" and a0[1][0] == "S" and a0[1][1] == A.buf_loc and a0[1][2] == C(0, "usize"):
-                    okc = norm(a0[1][3]) == want_hi
-                else:
-                    im = [e for e in tbl.residual_calls(p) if e["key"].endswith("IndexMut::index_mut") and norm(e["result"]) == norm(a0)]
-                    if len(im) == 1 and im[0]["args"][0] == ("ref", A.buf_loc):
-                        r = im[0]["args"][1]
-                        if r[0] == "agg" and r[1] == "adt" and r[2].endswith("::RangeTo"):
-                            okc = norm(r[5][0]) == want_hi
-                if not okc:
-                    probs.append("C: decoder does not receive &mut buf[..idx] with idx read after the append")
-        # D: reset
-        fin = A.final_idx(p)
-        if v != "Consumed":
-            if fin != C(0, "usize"):
-                probs.append("D: returns %s but leaves idx = %s (must be 0 after a sentinel or overflow)" % (v, sym.show(fin)))
-        else:
-            if zf is None and fin != A.idx0 and fin != ("init", A.idx_loc):
-                probs.append("D: empty input changes idx")
-        # E: remainder
-        if v in ("Success", "DeserError", "OverFull") and zf:
-            f = dict(zip(p.ret[4], p.ret[5]))
-            rem = norm(f.get("remaining") if v == "Success" else p.ret[5][0])
-            if rem != release:
-                probs.append("E: %s carries %s, expected the bytes after the zero (release)" % (v, sym.show(rem)))
-        if v == "Success":
-            f = dict(zip(p.ret[4], p.ret[5]))
-            if not dec or norm(f.get("data")) != norm(("okval", dec[0]["result"])):
-                probs.append("E: Success.data is not the decoder's value")
-            if dec and p.tagfacts.get(("tag", dec[0]["result"])) != 0:
-                probs.append("E: Success without a successful decode")
-        if v == "DeserError" and (not dec or p.tagfacts.get(("tag", dec[0]["result"])) != 1):
-            probs.append("E: DeserError without a failed decode")
-        if v == "Consumed" and zf:
-            probs.append("a zero byte was seen but no result is reported")
-        if v in ("Success", "DeserError") and not zf:
-            probs.append("a frame result is reported without a zero byte")
-        run_.check(not probs, "PATH", "feed_ref %s" % tag, probs[0] if probs else "split/append/decode/reset/remainder hold on this path", site, found=probs)
+    pc = F.crate("postcard")
+    ren = glue.renames(F, pc, glue.load2("A"))
+    # PATH: the case analysis of the property, written by hand (rules/handspec.py), one instance per case; decided as equality of
+    # boolean functions under the invariant idx <= N, so the shape of the code (branch order, helper functions, how the slices are cut) is free
+    handspec.check(run_, "PATH", F, pc, ["<accumulator::CobsAccumulator<N> as ->::feed_ref"],
+                   "split after the first zero / guarded append / decode buf[..idx] / reset / remainder", renames=ren, per_outcome=True)
     run_.floor("PATH", 6)
-    # extend_unchecked body
-    e = A.extend
-    ls = summ.lines(summ.summarize(F, e))
-    want = ["if always: #1 = <[u8; N] as IndexMut>::index_mut(&*self.buf, Range{start: *self.idx, end: Add(*self.idx, len(arg2))}); "
-            "#2 = core::slice::<impl [T]>::copy_from_slice(#1, arg2); *self.idx := Add(*self.idx, len(arg2)) => ()"]
-    run_.check(ls == want, "B", "extend_unchecked body", "append must copy the input to buf[idx..idx+len] and add len to idx", e.where(), expected=want, found=ls)
-    # feed delegates
-    ls = summ.lines(summ.summarize(F, A.feed))
-    run_.check(ls == ["if always: #1 = accumulator::CobsAccumulator::<N>::feed_ref(self, arg2) => #1"], "S", "feed delegates to feed_ref",
-               "feed must be feed_ref", A.feed.where(), found=ls)
-    # O: who may write
+    handspec.check(run_, "S", F, pc, ["<accumulator::CobsAccumulator<N> as ->::feed"], "feed behaves as feed_ref", renames=ren)
+    # A: the frame boundary predicate, read off the function's own summary: every search is `position(|b| b == 0)` over the whole chunk
+    fr = [f for f in pc.fns if f.name == "feed_ref" and (f.impl_self or "").startswith("accumulator::CobsAccumulator<")]
+    if len(fr) != 1:
+        run_.bad("A", "zero predicate", "feed_ref not found")
+    else:
+        sm = summ2.summarize(F, fr[0], inline=handspec.acc_inline, renames=ren)
+        txt = " ".join(o["text"] + " " + " ".join(l[1] for c in o["when"] for l in c) for o in sm["outcomes"])
+        searches = txt.count("position(")
+        okA = searches > 0 and searches == txt.count(handspec.POS) and "find(" not in txt and "rposition(" not in txt
+        run_.check(okA, "A", "zero predicate", "frame boundary must be the first byte equal to 0 of the offered chunk (%d searches, not all of them `position(|b| b == 0)` over the chunk)" % searches, fr[0].where(),
+                   detail="frame boundary = first byte equal to 0")
+    # O: who may write idx/buf: the fields are private to the accumulator module (the compiler enforces it), and inside the module every
+    # function that writes them is either the constructor or is inlined into feed_ref's specification above
+    adt = pc.adts.get("postcard::accumulator::CobsAccumulator")
+    probs = []
+    if not adt:
+        probs.append("struct not found")
+    else:
+        for v in adt["variants"]:
+            for fl in v["fields"]:
+                if "accumulator" not in (fl.get("vis") or "") or (fl.get("vis") or "").startswith("Public"):
+                    probs.append("field %s is visible outside the accumulator module (%s)" % (fl["name"], fl.get("vis")))
     writers = set()
-    for f in A.pc.fns:
+    for f in pc.fns:
+        if not f.canon.startswith("postcard::accumulator::"):
+            continue
         for bb in f.blocks:
-            for s in bb["stmts"]:
-                if s["k"] != "assign":
-                    continue
-                prev_ty = f.locals[s["p"]["local"]]["ty"]
-                for el in s["p"]["proj"]:
-                    if el["k"] == "field" and el["name"] in ("idx", "buf") and "CobsAccumulator" in prev_ty:
-                        writers.add(f.name)
-                    if el["k"] == "field":
-                        prev_ty = el["ty"]
-                    elif el["k"] == "deref":
-                        prev_ty = el.get("of", "").replace("&mut ", "").replace("&", "")
-    extra = writers - {"new", "feed_ref", "extend_unchecked"}
-    run_.check(not extra, "O", "writers of idx/buf", "accumulator state is written outside new/feed_ref/extend_unchecked: %s" % sorted(extra), A.feed_ref.where(),
-               detail="idx/buf written only by %s" % sorted(writers))
+            for s_ in bb["stmts"]:
+                if s_["k"] == "assign" and any(el["k"] == "field" for el in s_["p"]["proj"]) and "CobsAccumulator" in f.locals[s_["p"]["local"]]["ty"]:
+                    writers.add(f)
+    reach = set()
+    for root in fr:
+        eng = sym.Engine(F, inline=handspec.acc_inline, max_visits=2, max_depth=10)
+        for p in eng.run(root):
+            for e in p.events:
+                if e["k"] == "call" and e.get("inlined") and e.get("callee"):
+                    reach.add(e["callee"].get("canon"))
+                    if e["callee"].get("resolved"):
+                        reach.add(e["callee"]["resolved"].get("canon"))
+        reach.add(root.canon)
+    for w in writers:
+        if w.canon not in reach and w.name != "new" and not (w.j.get("vis") == "Public" and w.name in ("feed", "feed_ref")):
+            probs.append("%s writes the accumulator state but is not part of feed_ref's specified behaviour" % w.def_)
+    run_.check(not probs, "O", "writers of idx/buf", probs[0] if probs else "", site=None, detail="fields private to the module; writers: %s" % sorted(w.name for w in writers), found=probs)
     run_.explanation = (
-        "feed_ref is loop-free; all %d of its MIR paths are enumerated. On each path linear arithmetic over (idx, N, len(input), position) and the "
-        "dominating guards shows: the chunk is split right after the first zero; every append is guarded by idx+len<=N on the unmodified idx; the decoder "
-        "gets buf[..idx] after the append; idx is 0 on every non-Consumed return; the remainder is the bytes after the zero. With the who-may-write "
-        "check this makes the invariant inductive, so one result per zero byte holds for every chunking." % len(A.paths))
+        "feed_ref (with its private helpers inlined) is summarised from MIR as a set of outcomes with conditions and compared, as boolean functions under the "
+        "invariant idx <= N, with the six-case analysis of the property written by hand: empty chunk; no zero and fits (append, idx += len); no zero and does "
+        "not fit (reset, tail handed back); zero but segment does not fit (reset, bytes after the zero handed back); zero and fits (append through the zero, "
+        "decode exactly buf[..idx], reset, Success/DeserError with the bytes after the zero). feed is the same function. The boundary predicate is read off the "
+        "summary, and idx/buf are private fields written only inside that specified behaviour and the constructor, which makes the invariant inductive for "
+        "every chunking.")
     run_.trusted += ["core slice::split_at / Iterator::position / copy_from_slice contracts", "from_bytes_cobs (C06/C07)"]
     run_.assumptions += ["callers re-feed returned remainders as documented"]
